@@ -98,6 +98,8 @@ func runAssert(r *core.Run) {
 					key := fmt.Sprintf("%s %s", fnLabel(fn), shortType(ta.AssertedType))
 					if mi, isMI := ta.X.(*ssa.MakeInterface); isMI && types.Identical(mi.X.Type(), ta.AssertedType) {
 						r.OK("single-result assertion "+key, ta.Pos(), "operand was just built from a value of the asserted type")
+					} else if dynamicTypeIs(ta.X, ta.AssertedType, 0) {
+						r.OK("single-result assertion "+key, ta.Pos(), "the asserted value always has this dynamic type (every value it can be is built from it)")
 					} else if why, has := assertExceptions[key]; has {
 						r.Except("single-result assertion "+key, ta.Pos(), why)
 					} else {
@@ -370,4 +372,63 @@ func allPathsGuarded(fn *ssa.Function, addr ssa.Value, target *ssa.BasicBlock) b
 		return false
 	}
 	return len(fn.Blocks) > 0 && !reach(fn.Blocks[0])
+}
+
+// dynamicTypeIs: every value v can take is an interface built (MakeInterface) from a non-nil value of type t:
+// a composite-literal address, or the matching result of a module function all of whose returns are such values.
+func dynamicTypeIs(v ssa.Value, t types.Type, depth int) bool {
+	if depth > 4 {
+		return false
+	}
+	switch x := v.(type) {
+	case *ssa.MakeInterface:
+		if !types.Identical(x.X.Type(), t) {
+			return false
+		}
+		if _, isPtr := t.Underlying().(*types.Pointer); isPtr {
+			_, fresh := x.X.(*ssa.Alloc) // &T{...}: never nil
+			return fresh
+		}
+		return true
+	case *ssa.ChangeInterface:
+		return dynamicTypeIs(x.X, t, depth+1)
+	case *ssa.Phi:
+		for _, e := range x.Edges {
+			if !dynamicTypeIs(e, t, depth+1) {
+				return false
+			}
+		}
+		return len(x.Edges) > 0
+	case *ssa.Extract:
+		c, ok := x.Tuple.(*ssa.Call)
+		if !ok {
+			return false
+		}
+		return callResultDynamicType(c, x.Index, t, depth)
+	case *ssa.Call:
+		return callResultDynamicType(x, 0, t, depth)
+	}
+	return false
+}
+
+func callResultDynamicType(c *ssa.Call, ri int, t types.Type, depth int) bool {
+	g := c.Call.StaticCallee()
+	if g == nil || c.Call.IsInvoke() || len(g.Blocks) == 0 || fnPkg(g) == nil || !core.InModule(fnPkg(g)) {
+		return false
+	}
+	n := 0
+	for _, b := range g.Blocks {
+		ret, ok := lastInstr(b).(*ssa.Return)
+		if !ok {
+			continue
+		}
+		if ri >= len(ret.Results) {
+			return false
+		}
+		n++
+		if !dynamicTypeIs(ret.Results[ri], t, depth+1) {
+			return false
+		}
+	}
+	return n > 0
 }
